@@ -138,10 +138,18 @@ def preset_for(draw, statements, extra_iris: int = 0, allow_zero_prefix: bool = 
     """LookupPreset in the C01 domain: every enabled table can hold one statement's entries."""
     ki, kd = needs(statements, count_string)
     ki = max(ki, extra_iris, 1)
-    names = draw(st.sampled_from(sorted({max(8, ki), max(8, ki) + 1, 8, 9, 16, 4000, 4096} - set(range(max(8, ki))))))
+    all_iris = {i for stt in statements for t in stt for i in iris_of(t)}
+    n_prefixes = len({i[:max(i.rfind("#"), i.rfind("/")) + 1] for i in all_iris})
+    n_names = len({i[max(i.rfind("#"), i.rfind("/")) + 1:] for i in all_iris})
+    nchoices = sorted({max(8, ki), max(8, ki) + 1, 8, 9, 16, 4000, 4096} - set(range(max(8, ki))))
+    if n_names > max(8, ki):  # the data can recycle name slots: make tight name tables likely
+        nchoices = [max(8, ki)] * 3 + [max(8, ki) + 1] * 2 + nchoices
+    names = draw(st.sampled_from(nchoices))
     pchoices = sorted({ki, ki + 1, ki + 2, 8, 150, 4096} - set(range(ki)))
     if allow_zero_prefix:
         pchoices = [0] + pchoices
+    if n_prefixes > ki:  # the data can recycle prefix slots: make tight prefix tables likely
+        pchoices = [ki] * 4 + [ki + 1] * 3 + pchoices
     prefixes = draw(st.sampled_from(pchoices))
     if kd == 0:
         dchoices = [0, 1, 2, 32, 4096]
